@@ -21,7 +21,7 @@ for f in $TESTS; do mv /tmp/wt/.aside-$ID/$f $f; done; rm -rf /tmp/wt/.aside-$ID
 PKGS=$(for f in $TESTS; do echo "./$(dirname $f)"; done | sort -u)
 go test -vet=off -count=1 $TAGS -run 'ZZ|zz|Demo' $PKGS > "$OUT/demo_with_change.log" 2>&1; DEMO_WITH=$?
 # 3. demo without the change -> must pass
-git stash -q
+git apply -R "$OUT/patch.diff"   # (not git stash: the stash is shared between worktrees)
 go test -vet=off -count=1 $TAGS -run 'ZZ|zz|Demo' $PKGS > "$OUT/demo_without_change.log" 2>&1; DEMO_WITHOUT=$?
-git stash pop -q
+git apply "$OUT/patch.diff"
 echo "{\"id\":\"$ID\",\"suite_with_change_exit\":$SUITE,\"demo_with_change_exit\":$DEMO_WITH,\"demo_without_change_exit\":$DEMO_WITHOUT,\"tags\":\"$TAGS\"}" | tee "$OUT/confirm.json"
